@@ -10,5 +10,8 @@ import (
 
 func TestVerif(t *testing.T) {
 	log.SetOutput(io.Discard)
+	// process-wide lazily initialised state is set up before the first run so that
+	// a run does not depend on which runs the process executed before it
+	_ = shardRecoveryLogger()
 	hx.Main(t)
 }
